@@ -44,17 +44,19 @@ def smt2_shape(variant, optimizer, when, max_iter=None):
         fn = os.path.join(tmp, "p.smt2")
         # the exporting solver runs against the stub as well (its printers are z3's own, applied to exactly
         # what the real code handed over); 'after_solve': one successful solve() precedes the export
-        with warnings.catch_warnings():
-            warnings.simplefilter("ignore")
-            script0 = [z3.sat, z3.sat, z3.sat] if max_iter else [z3.sat, z3.unsat, z3.unsat]
-            with stubs.stubbed(P.ex, max_checks=3, script=script0, core_mode="all") as (solvers0, proxy0):
-                solver = ps.SchedulingSolver(problem=pb, **cfg)
-                if when == "after_solve":
-                    solver.solve()
-                solver.export_to_smt2(fn)
-        text = open(fn).read()
-        os.unlink(fn)
-        os.rmdir(tmp)
+        try:
+            with warnings.catch_warnings():
+                warnings.simplefilter("ignore")
+                script0 = [z3.sat, z3.sat, z3.sat] if max_iter else [z3.sat, z3.unsat, z3.unsat]
+                with stubs.stubbed(P.ex, max_checks=3, script=script0, core_mode="all") as (solvers0, proxy0):
+                    solver = ps.SchedulingSolver(problem=pb, **cfg)
+                    if when == "after_solve":
+                        solver.solve()
+                    solver.export_to_smt2(fn)
+            text = open(fn).read()
+        finally:
+            import shutil
+            shutil.rmtree(tmp, ignore_errors=True)  # (also when the explorer abandons the path)
         # what solve() checks: a second, identically declared problem solved against the stub
         pb2, obs2 = c14.build_rich(P, dict(c14.CANON), {}, variant)
         holder = {}
